@@ -54,7 +54,7 @@ def install_race_hook(ctx):
                 return
             if la <= av < la + ls:
                 target = "sandbox_list"
-            elif write and "rlbox" in nm and nm not in lockg and not eng.m.globals[nm].tls and "rlbox_bm" not in nm and "rlbox_vsbx" not in nm and "_ZGV" not in nm:
+            elif write and "rlbox" in nm and nm not in lockg and not eng.m.globals[nm].tls and not nm.startswith("_ZN5rlbox8rlbox_bm") and not nm.startswith("_ZN5rlbox10rlbox_vsbx") and "_ZGV" not in nm:
                 st.user.setdefault("race", []).append("write to process-wide rlbox global %s" % nm)
                 return
         elif region == "heap":
@@ -252,6 +252,11 @@ def jobs(tier, seed):
     src = '#include "C04_bm.inc"\n'
     for k in ("k_bm_store_load", "k_bm_load"):
         out.append(Job("C18_BM_" + k, src, [dict(name="lock discipline + non-interference " + k, fn=w(check_bm_discipline), kw=dict(k=k), unwind=200)], native=False))
+    # configuration: RLBOX_ENABLE_DEBUG_ASSERTIONS - code that exists only in debug builds obeys the same lock discipline
+    out.append(Job("C18_BM_debug_asserts", src, [dict(name="lock discipline + non-interference k_bm_store_load [debug assertions]", fn=w(check_bm_discipline), kw=dict(k="k_bm_store_load"), unwind=200)],
+                   native=False, flags=["-DRLBOX_ENABLE_DEBUG_ASSERTIONS"]))
+    out.append(Job("C18_BM_after_dead", src, [dict(name="lock discipline + non-interference after another thread's sandbox was destroyed",
+                                                   fn=w(lambda ctx: (install_race_hook(ctx), arm(ctx), C04.check_bm_after_dead(ctx), report(ctx, ctx._c18_paths))), unwind=200)], native=False))
     out.append(Job("C18_BM_failed_create", src, [dict(name="a failed creation is never published", fn=w(check_failed_create_discipline), unwind=200)], native=False))
     fl = ["-D_GLIBCXX_EXTERN_TEMPLATE=0"]
     out.append(Job("C18_dylib_scope", C12.DYLIB + '#include "C12_nested.inc"\n', [dict(name="dylib libraries are loaded with a private symbol scope", fn=check_dlopen_local, unwind=400)],
